@@ -2,6 +2,7 @@ import Orx.KSRun
 import Orx.IW.Outs
 import Orx.IW.Progress
 import Orx.IW.Termination
+import Orx.GenThms.ProtoSim
 /-! # C09 Progress: every call returns; known-size sources never wait -/
 namespace Orx.Props.C09
 open Orx Orx.KS
@@ -95,5 +96,23 @@ example : (∀ t, ∀ r ∈ exPs t, r.len ≤ 3) ∧ (∀ t, 3 ≤ t → exPs t 
     match t with
     | 0 | 1 | 2 => omega
     | _ + 3 => rfl
+
+
+/-- **A panic of the wrapped iterator, as the source handles it** (`get` and `fetch_n`, translated): the access that
+follows the panicking exit of `next()` is the guard's `completed.store(true, SeqCst)`, then the thread unwinds — nothing is
+published on `yielded`, so waiting threads leave through `completed` (the model's pcs `unw`/`dead`). -/
+theorem source_panic_marks_completed {β : Type} (K : Option Nat → RSP.Prog β) (REST : List Nat → RSP.Prog β) (m : Nat)
+    (acc : List Nat) :
+    GenThms.Proto.child (GenThms.Proto.tPollOneExit K) (.src .panic) = some (.stB .C .seqcst true (.panic "next")) ∧
+    GenThms.Proto.child (GenThms.Proto.tCollectExit REST m acc) (.src .panic) = some (.stB .C .seqcst true (.panic "next")) ∧
+    (∀ k b n, GenThms.Proto.treeAt k (.unw b n) = .stB .C .seqcst true (.panic "next")) :=
+  ⟨rfl, rfl, fun _ _ _ => rfl⟩
+
+/-- the requests of the model are the translated functions (single pulls, one-shot chunks, skips) -/
+theorem source_requests_are_the_translated_functions (k : Nat) :
+    (∀ l, GenThms.Proto.reqTree k (.single l) = GenThms.Proto.treeAt k (.resv (.single l))) ∧
+    (∀ n, 1 ≤ n → GenThms.Proto.reqTree k (.chunk n) = GenThms.Proto.treeAt k (.resv (.chunk n))) ∧
+    GenThms.Proto.reqTree k .skip = GenThms.Proto.treeAt k .skp :=
+  ⟨GenThms.Proto.reqTree_single k, GenThms.Proto.reqTree_chunk k, GenThms.Proto.reqTree_skip k⟩
 
 end Orx.Props.C09
